@@ -38,7 +38,7 @@ func runSession(tw *toolWorld, cases []tooldriver.Case, timeout time.Duration) [
 			out[i] = outcome{Status: "hang", Detail: tail(detail, 600)}
 			continue
 		case callCrashed:
-			out[i] = outcome{Status: "crash", Detail: tail(detail, 2000)}
+			out[i] = outcome{Status: "crash", Detail: headTail(detail, 1500, 1500)}
 			continue
 		}
 		var res tooldriver.Result
@@ -48,6 +48,13 @@ func runSession(tw *toolWorld, cases []tooldriver.Case, timeout time.Duration) [
 		out[i] = outcome{Status: "ok", Res: &res}
 	}
 	return out
+}
+
+func headTail(s string, h, t int) string {
+	if len(s) <= h+t {
+		return s
+	}
+	return s[:h] + "\n[...]\n" + s[len(s)-t:]
 }
 
 func tail(s string, n int) string {
